@@ -58,8 +58,22 @@ func (x *run) prepareHost(rs *repState, variant int) error {
 	}
 	_ = w("README.md", "# host project\nunstaged edit\n")
 	_ = w("untracked.log", "not tracked\n")
-	for _, kv := range [][2]string{{"core.hooksPath", "no-hooks"}, {"host.setting", "keep me"}, {"branch.feature.description", "a topic"}, {"alias.st", "status"}} {
+	for _, kv := range [][2]string{{"core.hooksPath", "no-hooks"}, {"host.setting", "keep me"}, {"branch.feature.description", "a topic"}, {"alias.st", "status"},
+		// sections that merely look like git-bug's
+		{"git-bug-tools.setting", "not git-bug's"}, {"gitbug.setting", "neither"}} {
 		if _, err := gitCmd(d, "config", kv[0], kv[1]); err != nil {
+			return err
+		}
+	}
+	// host refs whose names merely start like git-bug's namespaces: branches, tags, remote-tracking
+	// branches of the very remotes git-bug syncs with, and a ref hierarchy of some other tool
+	look := []string{"refs/heads/bugs-triage", "refs/heads/identities-cleanup", "refs/heads/bugs/fix-123", "refs/tags/bugs-v1",
+		"refs/bugs-archive/2019", "refs/identities.bak/old"}
+	for _, rem := range rs.r.Remotes {
+		look = append(look, "refs/remotes/"+rem+"/bugs-triage", "refs/remotes/"+rem+"/bugsnag-integration", "refs/remotes/"+rem+"/identities-cleanup", "refs/remotes/"+rem+"/main")
+	}
+	for _, ref := range look {
+		if _, err := gitCmd(d, "update-ref", ref, "HEAD"); err != nil {
 			return err
 		}
 	}
